@@ -914,6 +914,15 @@ def _respell_tables(src):
 
 add("tables-09-one-bias-value-changed", ["C17"], "*", _perturb_bias, None, rules=["tables"], note="one entry of the bias table shifted by 0.5")
 add("E-tables-02-constant-tables-respelt", ["C17"], "*", _respell_tables, None, kind="E", note="layout of hll_constants.py changed, values intact")
+add("E-once-03-worker-loop-governed-by-a-flag", ["C08", "C19"], "helpers",
+    "    start = datetime.now()\n    while True:\n        q_item = in_queue.get()",
+    "    start = datetime.now()\n    finished = False\n    while not finished:\n        q_item = in_queue.get()", kind="E",
+    also=[("helpers", "            )\n            return None\n\n\ndef parallel_add(", "            )\n            finished = True\n\n\ndef parallel_add(")],
+    note="the worker loop runs `while not finished:` and the pill branch sets the flag instead of returning")
+add("once-09-flag-set-on-a-real-item", ["C08"], "helpers",
+    "    start = datetime.now()\n    while True:\n        q_item = in_queue.get()",
+    "    start = datetime.now()\n    finished = False\n    while not finished:\n        q_item = in_queue.get()\n        finished = q_item == b''",
+    rules=["once"], note="a real (empty) item ends the worker loop")
 add("E-global-08-rename-kernel-parameters", ALL_PROPS, "*", _rename_kernel_params, None, kind="E",
     note="every parameter of every @njit kernel renamed (call sites are positional)")
 add("E-global-09-rename-private-functions", ALL_PROPS, "*", _rename_private_functions, None, kind="E",
